@@ -22,6 +22,7 @@ from pathlib import Path
 
 sys.path.insert(0, str(Path(__file__).resolve().parent))
 import expr_oracle as orc  # noqa: E402
+import selexpr  # noqa: E402  (the resolver used by the engine campaigns; cross-checked here, never used as the C16 oracle)
 
 from _pytask.mark.expression import Expression  # noqa: E402
 from _pytask.mark.expression import ParseError  # noqa: E402
@@ -111,6 +112,8 @@ class Acc:
         self.validated = 0
         self.nviol = 0
         self.ndis = 0
+        self.selexpr_check = False
+        self.selfcheck: list = []
 
     def bump(self, k):
         self.dist[k] = self.dist.get(k, 0) + 1
@@ -118,7 +121,7 @@ class Acc:
     def result(self):
         return {"n": self.n, "hashes": self.hashes.hex(), "dist": self.dist, "violations": self.violations,
                 "disagreements": self.disagreements, "samples": self.samples, "validated": self.validated,
-                "nviol": self.nviol, "ndis": self.ndis}
+                "nviol": self.nviol, "ndis": self.ndis, "selfcheck": self.selfcheck[:5]}
 
 
 def h8(s: str) -> bytes:
@@ -148,7 +151,8 @@ def check_strings(acc: Acc, strings, drv):
         pend_meta.clear()
 
     for s in strings:
-        idents = orc.identifiers(s)[:MAX_IDENTS]
+        all_idents = orc.identifiers(s)
+        idents = all_idents[:MAX_IDENTS]
         real = real_table(s, idents)
         want = orc.table(s, idents)
         acc.n += 1
@@ -173,6 +177,16 @@ def check_strings(acc: Acc, strings, drv):
                 acc.samples.append({"expr": s, "idents": idents, "result": real})
         elif cls == "parse-error":
             acc.bump("error-col=" + ("1" if real == "parse-error:1" else "end" if real == f"parse-error:{len(s) + 1}" else "inside"))
+        if acc.selexpr_check and want != "too-deep" and len(all_idents) <= MAX_IDENTS:
+            # harness self-check: the older resolver `selexpr.evaluate` must agree with the C16 oracle (all identifiers true / false)
+            for val in (True, False):
+                try:
+                    got = "ok:" + ("1" if selexpr.evaluate(s, lambda _x, val=val: val) else "0")
+                except selexpr.BadExpr:
+                    got = "parse-error"
+                exp = want if not want.startswith("ok:") else "ok:" + (want[-1] if val else want[3])
+                if got != exp:
+                    acc.selfcheck.append(f"selexpr.evaluate({s!r}, all {val}) = {got}, expr_oracle = {exp}")
         if drv is not None:
             pend_lines.append(model_line(s, idents))
             pend_meta.append((s, idents, real))
@@ -316,6 +330,7 @@ def main():
         if job["kind"] == "exh":
             check_strings(acc, enumerate_strings(job["symbols"], job["maxlen"], job["prefixes"], job.get("shorter", False)), drv)
         elif job["kind"] == "list":
+            acc.selexpr_check = True
             check_strings(acc, job["strings"], drv)
         elif job["kind"] == "tasks":
             check_tasks(acc, job["cases"], drv)
